@@ -91,6 +91,47 @@ class C08(Property):
                         s.add("S.1")
                     s.add("O.1")
                     out.append(s.line())
+        # (d) every byte position of the captured handshake datagrams (positions beyond the datagram are no-ops on both
+        #     sides): the length and count fields that are read before anything is verified sit at fixed offsets
+        for state in ["unknown", "pending_initiator", "pending_responder", "established_lingering"] + (["established", "closing"] if thorough else []):
+            for k in (0, 1, 2):
+                for lo in range(0, 280, 70):
+                    s = setup(rng, state)
+                    s.add("S.1")
+                    for pos in range(lo, lo + 70):
+                        for bit in sorted(set([0, rng.randrange(8)] + (list(range(8)) if thorough else []))):
+                            s.add("F.%d.1.%d.%d.%d" % (k, rng.choice([2, 2, OUTSIDER]), pos, bit), "S.1")
+                    out.append(s.line())
+        # (e) verbatim replays of genuine handshake datagrams of OTHER exchanges into pending handshakes, each twice:
+        #     they verify (genuine signature) but belong to another key exchange; no dump-equality demand, only no panic
+        #     and agreement with the model
+        for state in ["pending_initiator", "pending_responder"]:
+            for first in list(range(0, 10)) + [None] * (6 if thorough else 2):
+                s = nu.Scenario()
+                cl = lambda i: ["%s/24" % bytes([10, 0, i, 0]).hex()]
+                s.node(1, claims=cl(1)).node(2, claims=cl(2)).node(3, claims=cl(3))
+                s.add("C.3.2", "A")                     # 3 <-> 2: ping, pong, peng, rotation, node info captured
+                s.tick(1)
+                s.add("C.2.3")                          # a second exchange the other way round (dual)
+                s.add("A")
+                n0 = 14
+                if state == "pending_initiator":
+                    s.add("C.1.2")
+                else:
+                    s.add("C.2.1", "D.%d" % 99)         # (index resolved below is not needed: deliver everything once)
+                    s.ops.pop()
+                    s.add("L.1.2.i.0")
+                s.add("S.1")
+                order = list(range(0, n0))
+                rng.shuffle(order)
+                if first is not None:            # each captured datagram is also tried first, on the untouched pending state
+                    order = [first, first] + order
+                for k in order:
+                    for _ in range(2):
+                        s.add("J.%d.1.2" % k, "S.1")
+                s.tick(2)
+                s.add("A", "S.1", "S.2")
+                out.append(s.line())
         # (c) big random datagrams
         for _ in range(40 if thorough else 8):
             s = setup(rng, rng.choice(STATES))
